@@ -519,6 +519,9 @@ func run(r *vk.Run, c Case) {
 		return
 	}
 	once := func() *obs {
+		if c.Kind == "restart" {
+			return runRestart(r, c)
+		}
 		o := runOnce(r, c)
 		for k := 0; o.refWeak && k < 4; k++ {
 			r.Count("reruns_because_reference_below_nominal", 1)
@@ -638,6 +641,11 @@ func Run(r *vk.Run) {
 		for _, v := range []string{"plain", "held-submit", "failing-submit", "pair"} {
 			add(Case{Kind: "reaper", BlockMs: []int{10, 25}[k%2], Variant: v, ProdPct: []int{0, 150}[k%2]})
 		}
+	}
+	for k := 0; k < r.N(1, 6); k++ {
+		add(Case{Kind: "restart", BlockMs: 120, Variant: "lazy"})
+		add(Case{Kind: "restart", BlockMs: 120, Variant: "lazy", Storm: true})
+		add(Case{Kind: "restart", BlockMs: 120, Variant: "normal"})
 	}
 	var wg sync.WaitGroup
 	ch := make(chan Case)
